@@ -6,6 +6,8 @@ package main
 
 import (
 	"bytes"
+	"crypto/sha256"
+	"net/url"
 	"context"
 	"encoding/json"
 	"fmt"
@@ -103,6 +105,9 @@ func newStore(bin, root string) (*Store, error) {
 	_ = os.WriteFile(filepath.Join(root, "r2.txt"), []byte("result two\n"), 0o644)
 	_ = os.MkdirAll(filepath.Join(root, "sub"), 0o755)
 	_ = os.WriteFile(filepath.Join(root, "sub", "r3.txt"), []byte("result three\n"), 0o644)
+	_ = os.WriteFile(filepath.Join(root, "my file.txt"), []byte("unicode name\n"), 0o644)
+	_ = os.WriteFile(filepath.Join(filepath.Dir(root), "out.txt"), []byte("outside\n"), 0o644)
+	_ = syscall.Mkfifo(filepath.Join(root, "pipe.fifo"), 0o644)
 	return s, nil
 }
 
@@ -327,13 +332,14 @@ type Observation struct {
 	Readable bool
 	Err      string
 	Mismatch []string
+	Faithful bool              // every displayed result: sha256 = hash of the file, file_url = file:// + absolute path
 	RawShow  map[string][]byte // model id -> raw `show --json` bytes
 	RawList  []byte
 	RawEpics []byte
 }
 
 func (s *Store) observe(ids *IDMap) Observation {
-	o := Observation{View: View{}, Readable: true, RawShow: map[string][]byte{}}
+	o := Observation{View: View{}, Readable: true, Faithful: true, RawShow: map[string][]byte{}}
 	fail := func(what string, r RunResult) Observation {
 		o.Readable = false
 		o.Err = fmt.Sprintf("%s: exit %d: %s", what, r.Exit, strings.TrimSpace(string(r.Stderr)))
@@ -387,6 +393,17 @@ func (s *Store) observe(ids *IDMap) Observation {
 		}
 		for _, r := range sh.Results {
 			it.Results = append(it.Results, obsResult{Summary: r.Summary, Path: r.Path, TS: r.CreatedAt, sha: r.Sha, url: r.FileURL})
+			abs := filepath.Join(s.Root, r.Path)
+			if real, err := filepath.EvalSymlinks(s.Root); err == nil {
+				abs = filepath.Join(real, r.Path)
+			}
+			if b, err := os.ReadFile(filepath.Join(s.Root, r.Path)); err == nil && r.Sha != strings.Repeat("0", 64) {
+				u := url.URL{Scheme: "file", Path: abs}
+				u2 := url.URL{Scheme: "file", Path: filepath.Join(s.Root, r.Path)}
+				if fmt.Sprintf("%x", sha256.Sum256(b)) != r.Sha || (r.FileURL != u.String() && r.FileURL != u2.String()) {
+					o.Faithful = false
+				}
+			}
 		}
 		if li.State != sh.State || li.ClaimedBy != sh.ClaimedBy || li.EpicID != sh.EpicID || li.Title != sh.Title || sh.ID != li.ID {
 			o.Mismatch = append(o.Mismatch, mid)
